@@ -228,7 +228,10 @@ def report(pid, tier, seed, mod, cases, results, wall, a):
     repdir = os.path.join(VERIF, 'replays', pid); os.makedirs(repdir, exist_ok=True)
     viol_records = []; known_hits = []
     for r in good:
+        seenv = set()
         for v in r['violations']:
+            if v['obligation'] in seenv: continue
+            seenv.add(v['obligation'])
             k = match_known(known, pid, r['case'], v['obligation'])
             h = hashlib.sha1(f"{r['case']}|{v['obligation']}".encode()).hexdigest()[:10]
             path = os.path.join(repdir, f'{h}.json')
